@@ -808,6 +808,49 @@ def _attr_chain(e):
     return None
 
 
+REWRITE_NAME = 'remove_unicode_matches'
+
+
+def _unwrap_rewrite(e):
+    """X.remove_unicode_matches(E) -> (E, True); E -> (E, False)"""
+    if isinstance(e, ast.Call) and isinstance(e.func, ast.Attribute) and e.func.attr == REWRITE_NAME and len(e.args) == 1 \
+            and not e.keywords:
+        return e.args[0], True
+    return e, False
+
+
+def matching_calls(scope):
+    """calls that produce the matches inside `scope`:
+    X.get_matches(pattern, text) | regex.finditer(pattern, text[, flags]) | pattern.finditer(text)
+    -> list of dict(kind, call, pattern expr (rewrite unwrapped), rewritten, text expr, ci)"""
+    out = []
+    for c in ast.walk(scope):
+        if not (isinstance(c, ast.Call) and isinstance(c.func, ast.Attribute)):
+            continue
+        if c.func.attr == 'get_matches':
+            if len(c.args) < 2:
+                raise AnalysisError('line %d: get_matches call shape not understood' % c.lineno)
+            out.append({'kind': 'get_matches', 'call': c, 'pattern': c.args[0], 'rewritten': None, 'text': c.args[1], 'ci': None})
+        elif c.func.attr == 'finditer':
+            recv = c.func.value
+            if isinstance(recv, ast.Name) and recv.id in ('regex', 're'):
+                if len(c.args) < 2:
+                    raise AnalysisError('line %d: finditer call shape not understood' % c.lineno)
+                pe, text, extra = c.args[0], c.args[1], list(c.args[2:])
+            else:
+                if len(c.args) < 1:
+                    raise AnalysisError('line %d: finditer call shape not understood' % c.lineno)
+                pe, text, extra = recv, c.args[0], []
+            flags = extra + [k.value for k in c.keywords if k.arg == 'flags']
+            ci = any(isinstance(x, ast.Attribute) and x.attr in ('I', 'IGNORECASE') for f in flags for x in ast.walk(f))
+            pe, rewritten = _unwrap_rewrite(pe)
+            if not rewritten:
+                # the compiled pattern itself is matched: it carries get_safe_reg_exp's flags (IGNORECASE by default)
+                ci = True
+            out.append({'kind': 'finditer', 'call': c, 'pattern': pe, 'rewritten': rewritten, 'text': text, 'ci': ci})
+    return out
+
+
 def det_extract_typing(fn, where):
     """the match loop pairs every match with the type of the pattern that produced it"""
     out = []
@@ -818,38 +861,48 @@ def det_extract_typing(fn, where):
             loops.append(n)
     if not loops:
         raise AnalysisError('%s: no loop over regexes_map.items() (match loop not recognised)' % where)
-    info = {'lowered': None, 'matches_call': None}
+    info = {'matching': None, 'match_vars': set()}
     for lp in loops:
         t = lp.target
         if not (isinstance(t, ast.Tuple) and len(t.elts) == 2 and all(isinstance(x, ast.Name) for x in t.elts)):
             raise AnalysisError('%s:%d loop target over regexes_map.items() is not (pattern, type)' % (where, lp.lineno))
         pat, typ = t.elts[0].id, t.elts[1].id
-        calls = [c for c in ast.walk(lp) if isinstance(c, ast.Call) and isinstance(c.func, ast.Attribute)
-                 and c.func.attr == 'get_matches']
+        calls = matching_calls(lp)
         if not calls:
-            raise AnalysisError('%s:%d no get_matches call in the match loop' % (where, lp.lineno))
-        for c in calls:
-            good = len(c.args) >= 1 and isinstance(c.args[0], ast.Name) and c.args[0].id == pat
-            out.append((good, 'matches', 'get_matches(%s, ...) in loop (pattern=%s, type=%s)'
-                        % (ast.unparse(c.args[0]) if c.args else '?', 'arg0' if good else pat, typ),
+            raise AnalysisError('%s:%d no get_matches / finditer call in the match loop' % (where, lp.lineno))
+        if len(calls) > 1:
+            raise AnalysisError('%s:%d several matching calls in the match loop' % (where, lp.lineno))
+        for mc in calls:
+            c = mc['call']
+            good = isinstance(mc['pattern'], ast.Name) and mc['pattern'].id == pat
+            out.append((good, 'matches', '%s(%s, ...) in loop (pattern=%s, type=%s)'
+                        % (mc['kind'], '<paired pattern>' if good else ast.unparse(mc['pattern'])[:40], pat if not good else 'arg0', typ),
                         'the matches are not those of the pattern the type is paired with', c.lineno))
-            info['matches_call'] = c
-        stores = [s for s in ast.walk(lp) if isinstance(s, ast.Assign) and len(s.targets) == 1
-                  and isinstance(s.targets[0], ast.Attribute) and s.targets[0].attr == 'type']
+            info['matching'] = mc
+            holders = set()
+            for n in ast.walk(lp):       # names the matches are bound to before being iterated
+                if isinstance(n, ast.Assign) and any(x is c for x in ast.walk(n.value)):
+                    holders |= {t_.id for t_ in n.targets if isinstance(t_, ast.Name)}
+            for n in ast.walk(lp):
+                if isinstance(n, ast.For) and isinstance(n.target, ast.Name) and (
+                        any(x is c for x in ast.walk(n.iter)) or (isinstance(n.iter, ast.Name) and n.iter.id in holders)):
+                    info['match_vars'].add(n.target.id)
+        stores = [s_ for s_ in ast.walk(lp) if isinstance(s_, ast.Assign) and len(s_.targets) == 1
+                  and isinstance(s_.targets[0], ast.Attribute) and s_.targets[0].attr == 'type']
         if not stores:
             raise AnalysisError('%s:%d the match loop stores no .type' % (where, lp.lineno))
-        for s in stores:
-            good = isinstance(s.value, ast.Name) and s.value.id == typ
-            out.append((good, 'type', '.type = %s' % ('<paired type>' if good else ast.unparse(s.value)),
-                        'the extracted type is not the one paired with the matching pattern', s.lineno))
+        for s_ in stores:
+            good = isinstance(s_.value, ast.Name) and s_.value.id == typ
+            out.append((good, 'type', '.type = %s' % ('<paired type>' if good else ast.unparse(s_.value)),
+                        'the extracted type is not the one paired with the matching pattern', s_.lineno))
     return out, info
 
 
-def det_lowered(fn, matches_call):
-    """is the text handed to get_matches a lower-cased copy of the query? -> bool"""
-    if matches_call is None or len(matches_call.args) < 2:
+def det_lowered(fn, text_expr):
+    """is the text that is matched a lower-cased copy of the query? -> bool"""
+    if text_expr is None:
         return False
-    a = matches_call.args[1]
+    a = text_expr
 
     def lowering(e):
         return isinstance(e, ast.Call) and isinstance(e.func, ast.Attribute) and 'lower' in e.func.attr.lower()
@@ -928,9 +981,12 @@ def det_single(fn, where):
     return out
 
 
-def det_span_source(fn, where):
-    """the reported start is the position of the match, not a re-search of the matched text"""
+def det_span_source(fn, where, match_vars=()):
+    """the reported start is the position of the loop's match object, not a re-search of the matched text"""
     out = []
+
+    def from_match(e):
+        return isinstance(e, ast.Name) and e.id in match_vars
     stores = [s for s in walk_fn(fn) if isinstance(s, ast.Assign) and len(s.targets) == 1
               and isinstance(s.targets[0], ast.Attribute) and s.targets[0].attr == 'start']
     if not stores:
@@ -949,14 +1005,10 @@ def det_span_source(fn, where):
         if isinstance(e, ast.Call) and isinstance(e.func, ast.Attribute):
             if e.func.attr in ('index', 'find') and e.args:
                 return 'research'
-            if e.func.attr == 'start' and len(e.args) <= 1:
-                return 'position'
-            if e.func.attr == 'span':
+            if e.func.attr in ('start', 'span') and len(e.args) <= 1 and from_match(e.func.value):
                 return 'position'
         if isinstance(e, ast.Subscript):
             return classify(e.value, depth + 1)
-        if isinstance(e, ast.Attribute) and e.attr in ('start', 'index', 'pos'):
-            return 'position'
         if isinstance(e, ast.BinOp):
             kinds = {classify(e.left, depth + 1), classify(e.right, depth + 1)} - {None}
             if len(kinds) == 1:
@@ -1105,17 +1157,26 @@ def det_unbound(fn, where):
 # =====================================================================================================
 
 def rewrite_model(fn, where):
-    """remove_unicode_matches as an ordered list of (pattern, replacement) applied to <param>.pattern"""
+    """remove_unicode_matches as an ordered list of (pattern, replacement) applied to <param>.pattern;
+    a replacement is a string or ('fn', FunctionDef) for a nested helper (interpreted by call_helper)"""
     ps = params_of(fn, True)
     if len(ps) != 1:
         raise AnalysisError('%s: expected one parameter' % where)
     env = {}
+    helpers = {}
 
     def ev(e):
         if isinstance(e, ast.Call) and isinstance(e.func, ast.Attribute) and e.func.attr == 'sub' and \
                 isinstance(e.func.value, ast.Name) and e.func.value.id in ('re', 'regex') and len(e.args) == 3 \
-                and not e.keywords and all(isinstance(a, ast.Constant) and isinstance(a.value, str) for a in e.args[:2]):
-            return ev(e.args[2]) + [(e.args[0].value, e.args[1].value)]
+                and not e.keywords and isinstance(e.args[0], ast.Constant) and isinstance(e.args[0].value, str):
+            r = e.args[1]
+            if isinstance(r, ast.Constant) and isinstance(r.value, str):
+                repl = r.value
+            elif isinstance(r, ast.Name) and r.id in helpers:
+                repl = ('fn', helpers[r.id])
+            else:
+                raise AnalysisError('%s:%d replacement of a rewrite step not understood: %s' % (where, e.lineno, ast.unparse(r)[:40]))
+            return ev(e.args[2]) + [(e.args[0].value, repl)]
         if isinstance(e, ast.Attribute) and e.attr == 'pattern' and isinstance(e.value, ast.Name) and e.value.id == ps[0]:
             return []
         if isinstance(e, ast.Name) and e.id in env:
@@ -1123,7 +1184,9 @@ def rewrite_model(fn, where):
         raise AnalysisError('%s:%d rewrite step not understood: %s' % (where, getattr(e, 'lineno', 0), ast.unparse(e)[:60]))
     result = None
     for st in body_of(fn):
-        if isinstance(st, ast.Assign) and len(st.targets) == 1 and isinstance(st.targets[0], ast.Name):
+        if isinstance(st, ast.FunctionDef):
+            helpers[st.name] = st
+        elif isinstance(st, ast.Assign) and len(st.targets) == 1 and isinstance(st.targets[0], ast.Name):
             env[st.targets[0].id] = ev(st.value)
         elif isinstance(st, ast.Return) and st.value is not None:
             result = ev(st.value)
@@ -1134,10 +1197,154 @@ def rewrite_model(fn, where):
     return result
 
 
+_INT_OPS = {ast.Add: lambda a, b: a + b, ast.Sub: lambda a, b: a - b, ast.Mult: lambda a, b: a * b,
+            ast.BitOr: lambda a, b: a | b, ast.BitAnd: lambda a, b: a & b, ast.BitXor: lambda a, b: a ^ b,
+            ast.FloorDiv: lambda a, b: a // b}
+
+
+def call_helper(fn, m):
+    """whitelisting interpreter for a replacement helper `def f(m): ...; return <str>`: straight-line assignments (tuple
+    unpacking allowed), integer arithmetic, m.group(n), int(x, base), chr, %-formatting, f-strings, str.upper/lower/zfill.
+    Anything else is an AnalysisError (nothing from the tree is executed)."""
+    ps = [a.arg for a in fn.args.args]
+    if len(ps) != 1 or fn.args.vararg or fn.args.kwarg or fn.args.kwonlyargs:
+        raise AnalysisError('line %d: replacement helper %s does not take exactly the match' % (fn.lineno, fn.name))
+    env = {ps[0]: m}
+
+    def fail(e, why='construct'):
+        raise AnalysisError('line %d: replacement helper %s: %s not understood: %s'
+                            % (getattr(e, 'lineno', fn.lineno), fn.name, why, ast.unparse(e)[:60]))
+
+    def small(v):
+        if isinstance(v, int) and not isinstance(v, bool) and abs(v) > 1 << 40:
+            raise AnalysisError('line %d: replacement helper %s: integer out of range' % (fn.lineno, fn.name))
+        return v
+
+    def ev(e):
+        if isinstance(e, ast.Constant) and isinstance(e.value, (int, str)) and not isinstance(e.value, bool):
+            return e.value
+        if isinstance(e, ast.Name):
+            if e.id in env:
+                return env[e.id]
+            fail(e, 'name')
+        if isinstance(e, ast.Tuple):
+            return tuple(ev(x) for x in e.elts)
+        if isinstance(e, ast.UnaryOp) and isinstance(e.op, ast.USub):
+            v = ev(e.operand)
+            if isinstance(v, int):
+                return -v
+            fail(e)
+        if isinstance(e, ast.BinOp):
+            a, b = ev(e.left), ev(e.right)
+            if isinstance(e.op, ast.Mod) and isinstance(a, str):
+                args = b if isinstance(b, tuple) else (b,)
+                if all(isinstance(x, (int, str)) for x in args):
+                    try:
+                        return a % args
+                    except (TypeError, ValueError):
+                        fail(e, 'format')
+                fail(e, 'format')
+            if isinstance(e.op, ast.Add) and isinstance(a, str) and isinstance(b, str):
+                return a + b
+            if isinstance(a, int) and isinstance(b, int) and not isinstance(a, bool) and not isinstance(b, bool):
+                if isinstance(e.op, (ast.LShift, ast.RShift)):
+                    if not 0 <= b <= 32:
+                        fail(e, 'shift')
+                    return small(a << b if isinstance(e.op, ast.LShift) else a >> b)
+                if type(e.op) in _INT_OPS:
+                    if isinstance(e.op, ast.FloorDiv) and b == 0:
+                        fail(e, 'division')
+                    return small(_INT_OPS[type(e.op)](a, b))
+            fail(e, 'operator')
+        if isinstance(e, ast.JoinedStr):
+            parts = []
+            for pz in e.values:
+                if isinstance(pz, ast.Constant):
+                    parts.append(str(pz.value))
+                elif isinstance(pz, ast.FormattedValue) and pz.conversion == -1:
+                    v = ev(pz.value)
+                    spec = ''
+                    if pz.format_spec is not None:
+                        if not all(isinstance(x, ast.Constant) for x in pz.format_spec.values):
+                            fail(pz, 'format spec')
+                        spec = ''.join(str(x.value) for x in pz.format_spec.values)
+                    if not isinstance(v, (int, str)):
+                        fail(pz, 'formatted value')
+                    try:
+                        parts.append(format(v, spec))
+                    except (TypeError, ValueError):
+                        fail(pz, 'format spec')
+                else:
+                    fail(pz)
+            return ''.join(parts)
+        if isinstance(e, ast.Call) and not e.keywords:
+            f = e.func
+            args = [ev(a) for a in e.args]
+            if isinstance(f, ast.Name):
+                if f.id == 'int' and len(args) in (1, 2) and isinstance(args[0], (str, int)) and all(isinstance(a, int) for a in args[1:]):
+                    try:
+                        return small(int(*args))
+                    except (TypeError, ValueError):
+                        fail(e, 'int()')
+                if f.id == 'chr' and len(args) == 1 and isinstance(args[0], int) and 0 <= args[0] <= 0x10FFFF:
+                    return chr(args[0])
+                if f.id == 'str' and len(args) == 1 and isinstance(args[0], (int, str)):
+                    return str(args[0])
+                if f.id == 'format' and len(args) == 2 and isinstance(args[0], (int, str)) and isinstance(args[1], str):
+                    try:
+                        return format(args[0], args[1])
+                    except (TypeError, ValueError):
+                        fail(e, 'format()')
+                fail(e, 'call')
+            if isinstance(f, ast.Attribute):
+                recv = ev(f.value)
+                if recv is m and f.attr == 'group' and len(args) <= 1 and all(isinstance(a, (int, str)) for a in args):
+                    try:
+                        g = m.group(*args)
+                    except (IndexError, error_types()):
+                        fail(e, 'group')
+                    return g if g is not None else ''
+                if isinstance(recv, str) and f.attr in ('upper', 'lower') and not args:
+                    return getattr(recv, f.attr)()
+                if isinstance(recv, str) and f.attr == 'zfill' and len(args) == 1 and isinstance(args[0], int) and 0 <= args[0] <= 16:
+                    return recv.zfill(args[0])
+            fail(e, 'call')
+        fail(e)
+
+    for st in body_of(fn):
+        if isinstance(st, ast.Assign) and len(st.targets) == 1:
+            t = st.targets[0]
+            v = ev(st.value)
+            if isinstance(t, ast.Name):
+                env[t.id] = v
+            elif isinstance(t, ast.Tuple) and all(isinstance(x, ast.Name) for x in t.elts) and isinstance(v, tuple) \
+                    and len(v) == len(t.elts):
+                for x, y in zip(t.elts, v):
+                    env[x.id] = y
+            else:
+                fail(st, 'assignment')
+        elif isinstance(st, ast.Return) and st.value is not None:
+            v = ev(st.value)
+            if not isinstance(v, str):
+                fail(st, 'return value')
+            return v
+        else:
+            fail(st, 'statement')
+    raise AnalysisError('line %d: replacement helper %s returns nothing' % (fn.lineno, fn.name))
+
+
+def error_types():
+    return re.error
+
+
 def apply_rewrite(steps, pattern):
     for p, r in steps:
         try:
-            pattern = re.sub(p, r, pattern)
+            if isinstance(r, tuple):
+                helper = r[1]
+                pattern = re.sub(p, lambda m, helper=helper: call_helper(helper, m), pattern)
+            else:
+                pattern = re.sub(p, r, pattern)
         except re.error as e:
             raise AnalysisError('rewrite step %r does not compile: %s' % (p, e))
     return pattern
@@ -1538,7 +1745,7 @@ def analyse_registration(idx, R, E, ev, r, done):
         raise AnalysisError('%s: no extract for %s' % (r.extractor_cls.mod.rel, r.extractor_cls.name))
     xw = '%s:%s' % (xk.mod.rel, qual(xk, xfn))
     findings, info = det_extract_typing(xfn, xw)
-    lowered = det_lowered(xfn, info['matches_call'])
+    lowered = det_lowered(xfn, info['matching']['text'])
     ppk, pfn = idx.find_method(r.parser_cls, 'parse')
     if pfn is None:
         raise AnalysisError('%s: no parse for %s' % (r.parser_cls.mod.rel, r.parser_cls.name))
@@ -1566,9 +1773,9 @@ def analyse_registration(idx, R, E, ev, r, done):
                 'the resolution does not carry the parsed value', gfn.lineno)
         for good, what, detail, msg, line in det_single(xfn, xw):
             E.judge(good, 'C20.single', xk.mod.path, '%s %s' % (qual(xk, xfn), what), detail, msg, line)
-        for good, what, detail, msg, line in det_span_source(xfn, xw):
+        for good, what, detail, msg, line in det_span_source(xfn, xw, info['match_vars']):
             E.judge(good, 'C20.span', xk.mod.path, '%s %s' % (qual(xk, xfn), what), detail,
-                    msg + " - recognize_boolean('I know. No', 'en-us') reports start 3 (inside 'know'), text 'no'", line)
+                    msg + " - e.g. 'I know. No' would report start 3 (inside 'know'), text 'no'", line)
     # sentinel
     if vfn is None:
         raise AnalysisError('%s: no match_value for %s' % (r.extractor_cls.mod.rel, r.extractor_cls.name))
@@ -1612,7 +1819,7 @@ def analyse_registration(idx, R, E, ev, r, done):
         analyse_score(idx, E, ev, r, xk, xfn, ppk, pfn, gk, gfn, gparam, gdict, gname, sentinel_broken)
 
     # ---- (ii) word languages
-    analyse_words(idx, E, r, vals, wired, ucls, lowered)
+    analyse_words(idx, E, r, vals, wired, info['matching'], lowered)
 
 
 def analyse_score(idx, E, ev, r, xk, xfn, ppk, pfn, gk, gfn, gparam, gdict, gname, sentinel_broken):
@@ -1716,15 +1923,18 @@ def attr_line(cls, attr):
     return cls.node.lineno
 
 
-def analyse_words(idx, E, r, vals, wired, ucls, lowered):
-    # the rewrite and the matching mode, re-stated from recognizers_text.utilities
-    rcls = None
-    for c in idx.classes_by_name.get('RegExpUtility', []):
-        if 'get_matches' in c.methods:
-            rcls = c
-    if rcls is None:
-        raise AnalysisError('anchor vanished: RegExpUtility.get_matches')
-    mode = matching_mode(rcls.methods['get_matches'], '%s:RegExpUtility.get_matches' % rcls.mod.rel)
+def analyse_words(idx, E, r, vals, wired, matching, lowered):
+    # the rewrite and the matching mode, re-stated from the match loop (and RegExpUtility.get_matches when it is used)
+    if matching['kind'] == 'get_matches':
+        rcls = None
+        for c in idx.classes_by_name.get('RegExpUtility', []):
+            if 'get_matches' in c.methods:
+                rcls = c
+        if rcls is None:
+            raise AnalysisError('anchor vanished: RegExpUtility.get_matches')
+        mode = matching_mode(rcls.methods['get_matches'], '%s:RegExpUtility.get_matches' % rcls.mod.rel)
+    else:
+        mode = {'rewritten': matching['rewritten'], 'ci': matching['ci'], 'line': matching['call'].lineno}
     steps = []
     if mode['rewritten']:
         scls = None
@@ -1762,6 +1972,13 @@ def analyse_words(idx, E, r, vals, wired, ucls, lowered):
         if A['compile']:
             E.bad('C20.rewrite', c.mod.path, construct, 'rewritten pattern malformed: ' + A['compile'],
                   'the pattern handed to regex.finditer does not compile: every query raises', rline)
+            why = 'not decidable: the matched pattern is malformed (reported under C20.rewrite)'
+            for w in sorted(A['listed']):
+                if not is_emoji_word(w):
+                    E.exempt('C20.word', c.mod.path, '%s %r' % (construct, w), why, 'matched language not available', rline)
+                elif len(w) == 1:
+                    E.exempt('C20.emoji', c.mod.path, '%s U+%04X' % (construct, ord(w)), why, 'matched language not available', rline)
+            E.exempt('C20.residue', c.mod.path, construct, why, 'matched language not available', rline)
             continue
         E.judge(not A.get('matches_empty'), 'C20.rewrite', c.mod.path, construct,
                 'rewritten pattern: %d expressions, empty match %s' % (len(A['py']), 'possible' if A.get('matches_empty') else 'impossible'),
@@ -2078,28 +2295,61 @@ CONTROL_EDITS = {
 }
 
 
+# the same package in the shape of the repaired tree: surrogate pairs joined by a nested helper, matching in the extract loop
+CONTROL_RESHAPE = [
+    (r"""        py_regex = re.sub('\\\\u.{4}[\\|\\\\]', '', string.pattern)
+        return re.sub('\\\\u', '\\\\U', py_regex)
+""", r"""        def join_surrogates(m):
+            high, low = int(m.group(1), 16), int(m.group(2), 16)
+            return '\\U%08X' % (0x10000 + ((high - 0xD800) << 10) + (low - 0xDC00))
+
+        py_regex = re.sub(r'\\u([dD][89abAB][0-9a-fA-F]{2})\\u([dD][c-fC-F][0-9a-fA-F]{2})', join_surrogates, string.pattern)
+        return re.sub(r'\\u(000[0-9a-fA-F]{5})', r'\\U\1', py_regex)
+"""),
+    ("            for match in RegExpUtility.get_matches(regexp, lowered):\n",
+     "            for match in regex.finditer(StringUtility.remove_unicode_matches(regexp), lowered):\n"),
+    (r"TrueRegex = f'\\b(yes|ok)\\b|(\\uD83D\\uDC4C|\\u0001f44c)'", r"TrueRegex = f'\\b(yes|ok)\\b|(\\uD83D\\uDC4D|\\u270B|\\u0001f44c)'"),
+]
+CONTROL_EDITS_2 = {
+    'C20.typing': [("regex.finditer(StringUtility.remove_unicode_matches(regexp), lowered)",
+                    "regex.finditer(StringUtility.remove_unicode_matches(self.config.token_regex), lowered)")],
+    'C20.span': [("value.start = match.start()", "value.start = lowered.find(match.group())")],
+    'C20.rewrite': [(r"r'\\U\1', py_regex)", r"r'\\U', py_regex)")],
+    'C20.emoji': [("(low - 0xDC00))", "(low - 0xDC01))")],
+    'C20.residue': [("(low - 0xDC00))", "(low - 0xDC01))")],
+    'C20.word': [("regex.finditer(StringUtility.remove_unicode_matches(regexp), lowered)",
+                  "regex.finditer(StringUtility.remove_unicode_matches(regexp), source)")],
+}
+
+
+def _edited(src, edits, what):
+    for old, new in edits:
+        if old not in src:
+            raise AnalysisError('control package: edit text for %s not found (%r)' % (what, old[:40]))
+        src = src.replace(old, new, 1)
+    return src
+
+
 def controls(chk):
-    """every rule's detector is run on an embedded miniature choice package: silent on the correct one, and it must fire after
-    the edit recorded for the rule (positive control)"""
-    ix, _m = mini_index(CONTROL_PACKAGE, 'control')
-    base = Recorder()
-    analyse(ix, base)
-    if base.bad_rules:
-        raise AnalysisError('control package: the unedited package is flagged by %s %s'
-                            % (sorted(base.bad_rules), list(base.bad_rules.values())[0][:1]))
+    """every rule's detector is run on embedded miniature choice packages (the shape before and after the repairs of the
+    tree): silent on the correct ones, and it must fire after the edit recorded for the rule (positive control)"""
+    pkg2 = _edited(CONTROL_PACKAGE, CONTROL_RESHAPE, 'reshape')
+    for tag, pkg in (('control', CONTROL_PACKAGE), ('control2', pkg2)):
+        ix, _m = mini_index(pkg, tag)
+        base = Recorder()
+        analyse(ix, base)
+        if base.bad_rules:
+            raise AnalysisError('%s package: the unedited package is flagged by %s %s'
+                                % (tag, sorted(base.bad_rules), list(base.bad_rules.values())[0][:1]))
+    fired = {}
+    for tag, pkg, table in (('control', CONTROL_PACKAGE, CONTROL_EDITS), ('control2', pkg2, CONTROL_EDITS_2)):
+        for rid, edits in table.items():
+            ix, _m = mini_index(_edited(pkg, edits, rid), '%s-%s' % (tag, rid))
+            rec = Recorder()
+            try:
+                analyse(ix, rec)
+            except AnalysisError as e:
+                raise AnalysisError('%s for %s could not be analysed: %s' % (tag, rid, e))
+            fired.setdefault(rid, []).append(rid in rec.bad_rules)
     for rid, _desc, _floor in RULES:
-        edits = CONTROL_EDITS.get(rid)
-        if not edits:
-            continue
-        src = CONTROL_PACKAGE
-        for old, new in edits:
-            if old not in src:
-                raise AnalysisError('control package: edit text for %s not found' % rid)
-            src = src.replace(old, new, 1)
-        ix, _m = mini_index(src, 'control-' + rid)
-        rec = Recorder()
-        try:
-            analyse(ix, rec)
-        except AnalysisError as e:
-            raise AnalysisError('control for %s could not be analysed: %s' % (rid, e))
-        chk.control(rid, rid in rec.bad_rules)
+        chk.control(rid, bool(fired.get(rid)) and all(fired[rid]))
